@@ -3,6 +3,241 @@ import HapVerif.Drv.Common
 namespace HapVerif.C08
 open HapVerif.Drv
 
-def handle (_args : List String) (_impl : String) : Verdict := bad "C08-not-implemented"
+/-! Line protocol (harness/c08class/c08_test.go)
+
+    C08 valid <wp> <ann> <cls>                         => <v><g><l>
+    C08 ev    <wp> c <ann>/<cls>                        => <acts>
+    C08 ev    <wp> d <ann>/<cls>                        => <acts>
+    C08 ev    <wp> u <ann>/<cls> <ann>/<cls> <touch>    => <acts>
+    C08 hist  <wp> <op,op,...>                          => <a a a ...> (one letter per op)
+    C08 world <wp> <op,op,...>                          => <0|1 per op>
+
+  <wp>    two digits: watch-ingress-without-class, ingress-class-precedence
+  <ann>   `-` absent, `o` the controller's class, `f` `f1` `f2` other values ("nginx", "", "HAProxy")
+  <cls>   `-` nil, `o` class of ours, `f` class of another controller, `d` `d1` no such class ("missing", "")
+  <touch> `0` nothing else differs, `a` another annotation, `s` the rest of the spec, `m` labels only
+  <acts>  `-` or `+`-joined subset of `A:n` `A:o` `U:n` `U:o` `D:n` `D:o` (list : which object)
+-/
+
+def parseCfg (s : String) : Option Cfg :=
+  match s.toList with
+  | [w, p] => if (w == '0' || w == '1') && (p == '0' || p == '1') then some { watch := w == '1', prec := p == '1' } else none
+  | _ => none
+
+def parseAnn : String → Option Ann
+  | "-" => some .absent
+  | "o" => some .ours
+  | "f" => some .foreign
+  | "f1" => some .foreign
+  | "f2" => some .foreign
+  | _ => none
+
+def parseCls : String → Option Cls
+  | "-" => some .absent
+  | "o" => some .ours
+  | "f" => some .foreign
+  | "d" => some .dangling
+  | "d1" => some .dangling
+  | _ => none
+
+def parseAC (s : String) : Option (Ann × Cls) :=
+  match s.splitOn "/" with
+  | [a, c] => do pure (← parseAnn a, ← parseCls c)
+  | _ => none
+
+/-- the value variants (`f` `f1` `f2`, `d` `d1`) are the same abstract value but different
+strings: moving between them changes the annotation map / the spec.  They are folded into the
+low two bits of the fingerprints; a touch adds 4. -/
+def variant : String → Nat
+  | "f1" => 1
+  | "d1" => 1
+  | "f2" => 2
+  | _ => 0
+
+def parseObj (s : String) : Option Obj :=
+  match s.splitOn "/" with
+  | [a, c] => do pure { ann := ← parseAnn a, cls := ← parseCls c, annRest := variant a, specRest := variant c }
+  | _ => none
+
+/-- the object after an update to `s`, keeping the touch counters of `o` -/
+def parseObjOver (o : Obj) (s : String) : Option Obj := do
+  let n ← parseObj s
+  pure { n with annRest := o.annRest / 4 * 4 + n.annRest, specRest := o.specRest / 4 * 4 + n.specRest, metaRest := o.metaRest }
+
+def bit (b : Bool) : String := if b then "1" else "0"
+
+def touched (o : Obj) : String → Option Obj
+  | "0" => some o
+  | "a" => some { o with annRest := o.annRest + 4 }
+  | "s" => some { o with specRest := o.specRest + 4 }
+  | "m" => some { o with metaRest := o.metaRest + 4 }
+  | _ => none
+
+def showAct : Act → String
+  | .add => "A:n"
+  | .upd => "U:n"
+  | .del => "D:o"
+  | .none => "-"
+
+def parseActs : String → Option Act
+  | "A:n" => some .add
+  | "U:n" => some .upd
+  | "D:o" => some .del
+  | "-" => some .none
+  | _ => none
+
+def letter : Act → Char
+  | .add => 'A' | .upd => 'U' | .del => 'D' | .none => '-'
+
+def ofLetter : Char → Option Act
+  | 'A' => some .add | 'U' => some .upd | 'D' => some .del | '-' => some .none | _ => none
+
+/-- history ops: `c<i>:<ann>/<cls>`, `u<i>:<ann>/<cls>:<touch>`, `d<i>`.  The update keeps the
+fingerprints of the stored object and bumps the touched one. -/
+inductive HOp
+  | create (i : Nat) (ac : String)
+  | update (i : Nat) (ac : String) (t : String)
+  | delete (i : Nat)
+
+def parseHOp (s : String) : Option HOp :=
+  match s.splitOn ":" with
+  | [h] =>
+    if h.startsWith "d" then (h.drop 1).toNat?.map HOp.delete else none
+  | [h, ac] =>
+    if h.startsWith "c" then do
+      let i ← (h.drop 1).toNat?
+      let _ ← parseAC ac
+      pure (.create i ac)
+    else none
+  | [h, ac, t] =>
+    if h.startsWith "u" then do
+      let i ← (h.drop 1).toNat?
+      let _ ← parseAC ac
+      pure (.update i ac t)
+    else none
+  | _ => none
+
+def toOp (s : St) : HOp → Option Op
+  | .create i ac => (parseObj ac).map (Op.create i)
+  | .delete i => some (.delete i)
+  | .update i ac t =>
+    match s.world i with
+    | none => (parseObj ac).map (Op.update i)
+    | some o => (parseObjOver o ac).bind fun n => (touched n t).map (Op.update i)
+
+/-- runs the model over a history; returns the per-op actions and the final state -/
+def runHist (cfg : Cfg) (ops : List HOp) : Option (List Act × St) :=
+  ops.foldlM (fun (acc : List Act × St) h => do
+    let op ← toOp acc.2 h
+    let act := match eventOf acc.2 op with
+      | some (_, ev) => classify cfg ev
+      | none => .none
+    pure (acc.1 ++ [act], step cfg acc.2 op)) ([], St.init)
+
+/-- the configured set according to the IMPLEMENTATION's actions -/
+def foldImpl (ops : List HOp) (acts : List Act) : Nat → Bool :=
+  (ops.zip acts).foldl (fun c (h, a) =>
+    let i := match h with | .create i _ => i | .update i _ _ => i | .delete i => i
+    applyAct c i a) (fun _ => false)
+
+def parseOp2 (s : String) : Option Op2 :=
+  let ann2 (x : String) : Option Ing2 :=
+    match x.splitOn "/" with
+    | [a, r] => do
+      let a ← parseAnn a
+      if r = "r" then pure ⟨a, true⟩ else if r = "-" then pure ⟨a, false⟩ else none
+    | _ => none
+  match s.splitOn ":" with
+  | ["id"] => some .ingDelete
+  | ["ic", x] => (ann2 x).map .ingCreate
+  | ["iu", x] => (ann2 x).map .ingUpdate
+  | ["k", "n"] => some (.classSet .none)
+  | ["k", "o"] => some (.classSet .ours)
+  | ["k", "f"] => some (.classSet .foreign)
+  | _ => none
+
+def handle (args : List String) (impl : String) : Verdict :=
+  match args with
+  | ["valid", wp, a, c] =>
+    match parseCfg wp, parseAnn a, parseCls c, impl.toList with
+    | some cfg, some a, some c, [v, g, l] =>
+      let m := isValidIngress cfg a c
+      let b (x : Char) := x == '1'
+      { model := bit m ++ bit m ++ bit m,
+        agree := b v == m && b g == m && b l == m && [v, g, l].all (fun x => x == '0' || x == '1'),
+        oracle := oracleValid cfg a c (b v) (b g) (b l),
+        trivial := a == .absent && c == .absent }
+    | _, _, _, _ => bad "valid-parse"
+  | ["ev", wp, "c", ac] =>
+    match parseCfg wp, parseAC ac with
+    | some cfg, some (a, c) =>
+      let ev := Ev.create { ann := a, cls := c }
+      let m := classify cfg ev
+      { model := showAct m, agree := impl = showAct m,
+        oracle := match parseActs impl with
+          | some act => oracleEvent cfg ev act
+          | none => some "event-in-several-lists" }
+    | _, _ => bad "ev-parse"
+  | ["ev", wp, "d", ac] =>
+    match parseCfg wp, parseAC ac with
+    | some cfg, some (a, c) =>
+      let ev := Ev.delete { ann := a, cls := c }
+      let m := classify cfg ev
+      { model := showAct m, agree := impl = showAct m,
+        oracle := match parseActs impl with
+          | some act => oracleEvent cfg ev act
+          | none => some "event-in-several-lists" }
+    | _, _ => bad "ev-parse"
+  | ["ev", wp, "u", ac1, ac2, t] =>
+    match parseCfg wp, parseObj ac1, (parseObj ac1).bind (parseObjOver · ac2) with
+    | some cfg, some o, some n0 =>
+      match touched n0 t with
+      | none => bad "touch"
+      | some n =>
+        let ev := Ev.update o n
+        let m := classify cfg ev
+        { model := showAct m, agree := impl = showAct m,
+          oracle := match parseActs impl with
+            | some act => oracleEvent cfg ev act
+            | none => some "event-in-several-lists",
+          trivial := ac1 == ac2 && t == "0" }
+    | _, _, _ => bad "ev-parse"
+  | ["hist", wp, opsS] =>
+    match parseCfg wp, parseList parseHOp opsS, impl.toList.mapM ofLetter with
+    | some cfg, some ops, some acts =>
+      match runHist cfg ops with
+      | none => bad "hist-touch"
+      | some (macts, st) =>
+        let conf := foldImpl ops acts
+        let ok := (List.range 4).all fun i =>
+          conf i == (match st.world i with | some o => o.selected cfg | none => false)
+        { model := String.ofList (macts.map letter),
+          agree := macts = acts,
+          oracle := if acts.length ≠ ops.length then some "hist-length"
+                    else if ok then none else some "configured-ne-selected",
+          trivial := ops.length < 2 }
+    | _, _, _ => bad "hist-parse"
+  | ["world", wp, opsS] =>
+    match parseCfg wp, parseList parseOp2 opsS with
+    | some cfg, some ops =>
+      -- states after each op
+      let sts := (ops.foldl (fun (acc : List St2 × St2) op =>
+        let s := step2 cfg true acc.2 op
+        (acc.1 ++ [s], s)) ([], {})).1
+      let m := String.ofList (sts.map fun s => if s.contrib then '1' else '0')
+      let flags := impl.toList
+      let verdict : Option String :=
+        if flags.length ≠ sts.length then some "world-length" else
+        (sts.zip flags).foldl (fun r (s, f) =>
+          match r with
+          | some e => some e
+          | none =>
+            let sel := selectedNow cfg s
+            if sel && f == '0' then some "selected-ingress-not-configured"
+            else if !sel && f == '1' then some "unselected-ingress-configured"
+            else none) none
+      { model := m, agree := m = impl, oracle := verdict, trivial := ops.length < 2 }
+    | _, _ => bad "world-parse"
+  | _ => bad "C08"
 
 end HapVerif.C08
